@@ -14,6 +14,9 @@
 //	cover:  streaming sessions of programs chosen by instruction-kind coverage,
 //	        analysed gate by gate (streamcov.go, shadow.go)
 //	direct: circuit.Streaming driven on histories of generated circuits
+//	opcat:  the opcodes Program.Stream handles, read from the current source
+//	        (opcat.go); cover must reach every one of them
+//	probe:  one program from a file, analysed as in mode cover (probe.go)
 package main
 
 import (
@@ -62,6 +65,10 @@ func main() {
 		os.Exit(cover(os.Args[2:]))
 	case "direct":
 		os.Exit(direct(os.Args[2:]))
+	case "opcat":
+		os.Exit(opcat(os.Args[2:]))
+	case "probe":
+		os.Exit(probe(os.Args[2:]))
 	default:
 		fmt.Fprintf(os.Stderr, "unknown mode %q\n", os.Args[1])
 		os.Exit(2)
